@@ -282,7 +282,7 @@ pub fn run(ctx: &Ctx) -> i32 {
     rep.add(out);
     rep.exhaustive = Some(false);
     rep.extra.insert("exhaustive_up_to_nodes".into(), json!(4));
-    let cases = ctx.tier.pick(6_000, 150_000);
+    let cases = ctx.tier.pick(60_000, 1_500_000);
     let out = run_tapes("C07", ctx.seed, ctx.threads, cases, 200, |tape, stats, counting| {
         let mut t = Tape::new(tape);
         let g = random_graph(&mut t);
